@@ -189,6 +189,8 @@ class ExecGen:
                 break
             self.budget -= 1
             c = r.random()
+            if self.k.get('p_include') and scope.get('includes') and r.random() < self.k['p_include']:
+                c = 0.93    # the include / fetch-probe branch below
             if c < 0.22:
                 out.append(self.tick())
             elif c < 0.36:
@@ -226,8 +228,18 @@ class ExecGen:
             elif c < 0.82 + self.k['raw_jumps'] * 0.5:
                 out.append(self.raw_jump(scope))
             elif c < 0.94 and scope.get('includes'):
-                urls = [r.choice(scope['includes']) for _ in range(1 if r.random() < 0.8 else 2)]
-                out.append(ir.st_include(*urls))
+                if self.k.get('fetch_probes') and scope.get('data') and r.random() < 0.35:
+                    self.n_obs += 1
+                    self.used_hosts.add('hostObserve')
+                    out.append(ir.st_expr(call('hostObserve', s(f'o{self.n_obs}'),
+                                               call('systemFetch', s(r.choice(scope['data']))))))
+                else:
+                    urls = [r.choice(scope['includes']) for _ in range(1 if r.random() < 0.8 else 2)]
+                    urls = [u for u in urls if u != '__probe_only__']
+                    if urls:
+                        out.append(ir.st_include(*urls))
+                    else:
+                        out.append(self.tick())
             elif r.random() < self.k['early_return'] * 3:
                 out.append(ir.st_return(self.any_expr(scope) if r.random() < 0.6 else None))
             else:
@@ -274,6 +286,20 @@ class ExecGen:
         return ir.st_function(name, args, body, last)
 
     # -- VFS ---------------------------------------------------------------------------------
+    def make_data(self, location):
+        """Data files for systemFetch probes, named relative to `location`."""
+        from . import resolve as R
+        r = self.rng
+        refs = []
+        for ref in r.sample(['d0.txt', 'sub/d1.txt', '../d2.txt', '/abs/d3.txt', 'http://other/d4.txt', 'nodata.txt'],
+                            r.randint(1, 3)):
+            loc = R.ref_resolve(location, ref) if location is not None else ref
+            norm = R.normalise(loc)
+            if ref != 'nodata.txt' and norm not in self.files:
+                self.files[norm] = {'data': True, 'text': 'data@' + norm, 'stmts': [], 'broken': False}
+            refs.append(ref)
+        return refs
+
     def make_vfs(self, main_location, depth, scope_g):
         """Files reachable from main_location; returns the list of reference spellings usable in it."""
         from . import resolve as R
@@ -317,6 +343,10 @@ class ExecGen:
                 sub_scope['no_calls'] = True       # files reachable from function bodies must not call back
             sub_scope['includes'] = self.make_vfs(location, depth + 1, scope_g) \
                 if depth + 1 < self.k['include_depth'] and r.random() < 0.6 else []
+            if self.k.get('fetch_probes'):
+                sub_scope['data'] = self.make_data(location)
+                if not sub_scope['includes']:
+                    sub_scope['includes'] = ['missing.bare'] if r.random() < 0.1 else ['__probe_only__']
             stmts = []
             if r.random() < 0.3 and not self.k.get('func_includes'):
                 fn_name = f'fnI{ix}'
@@ -364,6 +394,8 @@ class ExecGen:
                 plan['system_prefix'] = r.choice(['/sys/inc/', 'http://sys.example/inc/', 'sysrel/'])
             self.k['system_prefix'] = plan.get('system_prefix')
             scope['includes'] = self.make_vfs(main_location, 0, scope)
+            if k.get('fetch_probes'):
+                scope['data'] = self.make_data(main_location)
             if r.random() < 0.1:
                 plan['has_fetch'] = False
         stmts = []
@@ -387,6 +419,8 @@ class ExecGen:
         plan['answers'] = self.answers
         plan['exprs'] = self.exprs
         plan['files'] = {k_: v for k_, v in self.files.items() if v is not None}
+        for entry in plan['files'].values():
+            fixup_file(entry)
         # fault plan: host failures placed on calls that exist
         from .env import EXC_NAMES
         faults = []
@@ -414,6 +448,10 @@ class ExecGen:
 
 def fixup_file(entry):
     """(Re)derive text, torn-read cut points and the reference's parsed view from entry['stmts']."""
+    if entry.get('data'):
+        entry['cuts'] = [(0, 0)]
+        entry['ir'] = None
+        return
     stmts = entry['stmts']
     lines = ir.render_statements(stmts)
     text = '\n'.join(lines) + '\n'
